@@ -14,9 +14,11 @@ var extraEnv []string
 
 // runC18: canary, race phase (race build, production library), snapshot phase (verif build).
 func runC18(res *result) {
-	raceShards := nshards
-	if raceShards > 8 {
-		raceShards = 8
+	// many short race processes: a process is "cold" (no lazily built library state yet) only
+	// in its first round, and unsynchronised lazy initialisation races only while it is cold
+	raceShards := 24
+	if tier == "thorough" {
+		raceShards = 100
 	}
 	saved := nshards
 	// 1. canary: the detector must report a deliberate race on a harness-owned variable
